@@ -151,8 +151,10 @@ class RelativeValueIteration(ValueIteration):
         # Get new values using parent's batch processing
         new_values, _ = super()._iteration_step()
 
-        # Calculate value differences
-        new_values = new_values - self.gain
+        # Subtract the current value of the reference (last) state. This equals
+        # the gain term from the second iteration on; on the first iteration it
+        # also accounts for non-zero initial value estimates
+        new_values = new_values - self.values[-1]
 
         span = self._get_span(new_values, self.values)
 
